@@ -156,6 +156,12 @@ func (c *caseT) propose() {
 	m["created"] = []any{before + 1, ms}
 	if e == "" {
 		c.dkg = &tssfx.DKG{GroupID: tss.GroupID(before + 1), Accounts: accts}
+		if len(accts) >= 2 && c.r.Chance(1, 4) {
+			// this key generation will FAIL: one member deals a bad share and is caught by a complaint
+			c.dkg.CheatFrom = tss.MemberID(1 + c.r.Intn(len(accts)))
+			c.dkg.CheatTo = c.dkg.CheatFrom%tss.MemberID(len(accts)) + 1
+			c.tr.Tag("dkg-will-fail")
+		}
 	}
 	c.emit(m, e, true)
 }
